@@ -576,6 +576,12 @@ impl Gen {
             Some(s) => s,
             None => return vec![],
         };
+        if self.rng.chance(8, 100) {
+            // the user stores a gradient of their own (clipping, weight decay, ...)
+            let n = numel(&Self::dims_of(sim, s));
+            let vals = self.leaf_vals(n);
+            return vec![Ev::GradSet { slot: s, vals, flat: false }];
+        }
         if self.rng.chance(55, 100) {
             vec![Ev::GradRead { slot: s, via_clone: self.rng.chance(1, 4) }]
         } else if self.rng.chance(1, 12) {
@@ -876,7 +882,7 @@ impl Gen {
     /// properties name are reached in every batch rather than by luck.
     fn scenarist(&mut self, _sim: &Sim) -> Vec<Ev> {
         let mut v = Vec::new();
-        match self.rng.weighted(&[18, 18, 14, 22, 16, 10, 6]) {
+        match self.rng.weighted(&[18, 18, 14, 22, 16, 10, 6, 5, 5]) {
             0 => {
                 // a view taken while the array was untracked; later the array is trained and updated
                 let n = 2 + self.rng.below(5);
@@ -989,6 +995,49 @@ impl Gen {
                 };
                 let seed = self.seed_for(n);
                 v.push(Ev::Pass { root, seed, via_clone: false });
+            }
+            7 => {
+                // very many parameters (more than any machine word has bits), some of them frozen anywhere
+                let count = 65 + self.rng.below(16);
+                let mut ps = Vec::new();
+                for _ in 0..count {
+                    let p = self.fresh_slot();
+                    let n = 1 + self.rng.below(2);
+                    let vals = self.leaf_vals(n);
+                    v.push(Ev::Leaf { dst: p, dims: vec![n], vals, mode: if self.rng.chance(85, 100) { LeafMode::Tracked } else { LeafMode::Plain } });
+                    ps.push((p, n));
+                }
+                // a loss that touches most of them: sums of products within groups of equal shape
+                let mut roots = Vec::new();
+                for n in 1..=2 {
+                    let group: Vec<Slot> = ps.iter().filter(|x| x.1 == n && self.rng.chance(9, 10)).map(|x| x.0).collect();
+                    if group.len() >= 2 {
+                        let r = self.fresh_slot();
+                        let coef: Vec<f64> = group.iter().enumerate().map(|(i, _)| if i % 4 == 0 { 2.0 } else { 1.0 }).collect();
+                        v.push(Ev::Build { dst: r, op: Op::Custom { kind: CustomKind::Lin, coef, script: vec![] }, args: group });
+                        roots.push(r);
+                    }
+                }
+                for r in roots {
+                    v.push(Ev::Pass { root: r, seed: Seed::None, via_clone: false });
+                }
+                let slots: Vec<Slot> = ps.iter().map(|x| x.0).collect();
+                v.push(Ev::Update { slots, lr: if self.regime == Regime::Int { 1.0 } else { 0.5 }, opt: Some(self.rng.below(2)), keep_stale: false });
+            }
+            8 => {
+                // the user replaces a parameter's gradient by a flat array of the same element count, then updates
+                let d = vec![2, 1 + self.rng.below(3)];
+                let n = numel(&d);
+                let (p, q, r) = (self.fresh_slot(), self.fresh_slot(), self.fresh_slot());
+                let pv = self.leaf_vals(n);
+                let qv = self.leaf_vals(n);
+                v.push(Ev::Leaf { dst: p, dims: d.clone(), vals: pv, mode: LeafMode::Tracked });
+                v.push(Ev::Leaf { dst: q, dims: d, vals: qv, mode: LeafMode::Tracked });
+                v.push(Ev::Build { dst: r, op: Op::Mul, args: vec![p, q] });
+                v.push(Ev::Pass { root: r, seed: Seed::None, via_clone: false });
+                let gv = self.leaf_vals(n);
+                v.push(Ev::GradSet { slot: p, vals: gv, flat: true });
+                v.push(Ev::Update { slots: if self.rng.chance(1, 2) { vec![p, q] } else { vec![q, p] }, lr: if self.regime == Regime::Int { 1.0 } else { 0.25 }, opt: None, keep_stale: self.rng.chance(1, 2) });
             }
             6 => {
                 // a long vector (beyond any small block size) reduced and differentiated
